@@ -400,6 +400,37 @@ def run_perm(pair, rng, variant, opts):
     tr.call(OWNER, "claimPayment")
     tr.dump()
     perm_sweep(tr, variant, su, rng)
+    # a second deployment whose OWNER IS A CONTRACT ACCOUNT: the owner may run the selection steps although
+    # contract accounts in general may not ("only from the owner or a non-contract account")
+    t = tr
+    t.round, t.epoch = 0, 0
+    t.dump_addrs = [CCALLER, SUPPORT, 10, 11, STRANGER]
+    line = deploy_line(variant, CCALLER, 0, 0, LP_TOK, su.per, su.paytok, su.price, 2, su.conf, su.sel, su.claim,
+                       minc=su.minc, lockpct=su.lockpct, unlock=su.unlock, lockaddr=LOCK,
+                       cost=(su.feetok, 0, su.fee), avail=su.avail)
+    if not t.send(line).startswith("R ok"):
+        return tr
+    if variant in NFT:
+        t.call(CCALLER, "sftSetup")
+    t.call(CCALLER, alloc_ep(variant), alloc_args(variant, [(10, 2), (11, 2)]))
+    t.bound = 12
+    t.call(CCALLER, "deposit", esdts=[(LP_TOK, 0, su.per * 2)])
+    t.round = su.conf
+    for u in (10, 11):
+        t.call(u, "confirm", [2], **su.pay(su.price * 2))
+    t.round = su.sel
+    t.call(STRANGER, "filter")
+    t.call(902, "select", seeds=[rng.seed32()], probe=True)          # another contract account: rejected
+    t.call(CCALLER, "select", seeds=[rng.seed32()], budget=0)         # the owner, a contract account: accepted
+    t.call(CCALLER, "select", seeds=[rng.seed32()])
+    ex = su.extra_ep()
+    if ex:
+        t.call(902, ex, seeds=[rng.seed32(), rng.seed32()], probe=True)
+        for _ in range(20):
+            r = t.call(CCALLER, ex, seeds=[rng.seed32(), rng.seed32()])
+            if r["st"] != "ok" or r.get("ret") == "[0]":
+                break
+    t.dump()
     return tr
 
 
